@@ -60,7 +60,31 @@ func (p *Program) SliceLiteralsOf(elem types.Type) []TableLit {
 					}
 				}
 				path, _ := astutil.PathEnclosingInterval(file, cl.Pos(), cl.End())
-				for _, pn := range path {
+				for pi, pn := range path {
+					// the two-way form of the same selection: if x == K { … } else { … }
+					if is, ok := pn.(*ast.IfStmt); ok && pi > 0 {
+						if be, ok := is.Cond.(*ast.BinaryExpr); ok && (be.Op == token.EQL || be.Op == token.NEQ) {
+							var kv constant.Value
+							if v := pk.TypesInfo.Types[be.X].Value; v != nil {
+								kv = v
+							} else if v := pk.TypesInfo.Types[be.Y].Value; v != nil {
+								kv = v
+							}
+							if kv != nil {
+								inBody := path[pi-1] == ast.Node(is.Body)
+								inElse := is.Else != nil && path[pi-1] == is.Else
+								if inBody || inElse {
+									tl.InCase = true
+									if inBody == (be.Op == token.EQL) {
+										tl.CaseVals = append(tl.CaseVals, constString(kv))
+									} else {
+										tl.InDefault = true
+									}
+									break
+								}
+							}
+						}
+					}
 					if cc, ok := pn.(*ast.CaseClause); ok {
 						tl.InCase = true
 						if cc.List == nil {
